@@ -476,6 +476,8 @@ def run(prop, report, tier, seed, replay=None):
                 # saved their results (each worker saves on its own).  The run-level model has no term for them.
                 seen_fin = {e[1] for e in obs['events'] if e[0] == 'finish'}
                 exec_ok = {subs[e[1]] for op in script.ops if op[0] == 'wait' for e in op[1] if e[0] == 'finish' and e[2] and e[1] < len(subs)}
+                # (a worker let go right after the drain of the last wait(): it finished and saved, the next wait never came)
+                exec_ok |= {subs[e[1]] for e in script.carry if e[0] == 'finish' and e[1] < len(subs)}
                 unseen = exec_ok - seen_fin
                 if unseen:
                     obs['final_store'] = [t for t in obs.get('final_store', []) if t not in unseen]
